@@ -133,6 +133,7 @@ func clip(s string, n int) string {
 // the reference verdict (Spec, evaluated by the Lean driver). skip may exclude documents that are
 // outside the property's scope. Returns the number of oracle failures.
 func verdictOracle(c *engine.Ctx, results []*core.PResult, what string, skip func(r *core.PResult, doc int) bool) int {
+	crossCheckSpec(c, results)
 	fails := 0
 	for _, r := range results {
 		if r.RunsJ == nil || r.Unsupported {
